@@ -239,8 +239,14 @@ def garbage_elem(space, tag='garbage'):
     return NElem(space, NA(a, space.dt))
 
 
+class NotAnElement(Exception):
+    """An evaluated call produced something that is not a space element."""
+
+
 def flat(e):
     """All entries of an element (product elements concatenated)."""
+    if not isinstance(e, (NElem, NPElem)):
+        raise NotAnElement('%r is not a space element' % (e,))
     if isinstance(e, NPElem):
         out = []
         for p in e.parts:
@@ -251,6 +257,9 @@ def flat(e):
 
 def inner(x, y):
     """<x, y> of the model space (weighted, conjugate-linear in y)."""
+    for e in (x, y):
+        if not isinstance(e, (NElem, NPElem)):
+            raise NotAnElement('%r is not a space element' % (e,))
     sp = x.space
     if isinstance(sp, NPSpace):
         tot = Rat.const(0)
@@ -369,6 +378,23 @@ class SMHooks(NAHooks, OpHooks):
                 out.space.is_real:
             raise PyRaise('TypeError')
         self.store(I, out.data, Ellipsis, src)
+        self.sync_view(out)
+
+    def sync_view(self, e):
+        """`x.real` / `x.imag` of a complex element are views: a write into
+        them changes the element they were taken from."""
+        v = getattr(e, 'view_of', None)
+        if v is None:
+            return
+        base, part = v
+        for idx in _np.ndindex(*base.data.a.shape):
+            old = PA.ired(to_rat(base.data.a[idx]))
+            new = PA.ired(to_rat(e.data.a[idx]))
+            if part == 'real':
+                base.data.a[idx] = PA.ired(new + IU * PA.imag_part(old))
+            else:
+                base.data.a[idx] = PA.ired(PA.real_part(old) + IU * new)
+        self.sync_view(base)
 
     def lincomb(self, I, sp, a, x1, b=None, x2=None, out=None):
         if out is None:
@@ -573,11 +599,17 @@ class SMHooks(NAHooks, OpHooks):
         if name == 'real':
             if sp.is_real:
                 return x
-            return self.map(x, PA.real_part, real=True)
+            r = self.map(x, PA.real_part, real=True)
+            if isinstance(r, NElem):
+                r.view_of = (x, 'real')
+            return r
         if name == 'imag':
             if sp.is_real:
                 return self.const_elem(sp, 0)
-            return self.map(x, PA.imag_part, real=True)
+            r = self.map(x, PA.imag_part, real=True)
+            if isinstance(r, NElem):
+                r.view_of = (x, 'imag')
+            return r
         if name == 'dtype':
             return sp.parts[0].dt if isp else sp.dt
         if name == 'T':
@@ -911,6 +943,18 @@ class SMInterp(NAMixin, Interp):
                 Fr(repr(n.value.imag)))
         return super(SMInterp, self).ev(n, scope, func)
 
+    def call_inst(self, inst, args, kwargs):
+        r = Interp.call_inst(self, inst, args, kwargs)
+        if isinstance(r, (NA, list, tuple)) and 'out' not in kwargs and \
+                len(args) == 1 and self.model.is_subclass(inst.ci,
+                                                          'Operator'):
+            # Operator.__call__ turns a raw out-of-place result into an
+            # element of the range (that protocol is property C03)
+            rng = self.getattr_value(inst, 'range')
+            if isinstance(rng, (NSpace, NPSpace)):
+                return self.hooks.element(self, rng, r)
+        return r
+
     def new_element(self, space):
         if isinstance(space, (NSpace, NPSpace)):
             return garbage_elem(space, 'uninit')
@@ -945,6 +989,7 @@ class SMInterp(NAMixin, Interp):
                 idx = self._na_index(t.slice, scope, func)
                 self.hooks.store(self, obj.data, idx,
                                  v.data if isinstance(v, NElem) else v)
+                self.hooks.sync_view(obj)
                 return
             if isinstance(obj, NPElem):
                 idx = self.ev(t.slice, scope, func)
@@ -971,6 +1016,7 @@ class SMInterp(NAMixin, Interp):
                     if isinstance(cur, NA) or isinstance(v, NA) \
                     else self.binop(type(s.op), cur, v)
                 self.hooks.store(self, base.data, idx, res)
+                self.hooks.sync_view(base)
                 return
         cur = self.ev(s.target, scope, func) if not isinstance(
             s.target, ast.Name) else scope.get(s.target.id, self)
